@@ -115,6 +115,7 @@ def rule_b(ctx: Context, R: Reporter):
         cfg = flow.cfg
         # the test on the -inf mask
         tests = []
+        nonempty_pol = {}
         for nd in cfg.stmt_nodes():
             if nd.kind != "test":
                 continue
@@ -122,6 +123,11 @@ def rule_b(ctx: Context, R: Reporter):
             if any(l.kind == "call" and l.text.split(".")[-1] in ("isinf", "isfinite") for l in leaves) and any(l.kind == "call" and l.text.split(".")[-1] in ("any", "sum", "all", "count_nonzero") for l in leaves):
                 if isinstance(nd.ast, ast.Call):
                     tests.append(nd)
+                    nonempty_pol[nd.id] = True
+                elif isinstance(nd.ast, ast.UnaryOp) and isinstance(nd.ast.op, ast.Not) and isinstance(nd.ast.operand, ast.Call):
+                    # guard clause `if not np.any(mask): return`
+                    tests.append(nd)
+                    nonempty_pol[nd.id] = False
         sites = [s for s in discover_sites(ctx, fi) if {"u", "x", "logl"} <= s.fields()]
         for t in tests:
             n += 1
@@ -129,7 +135,7 @@ def rule_b(ctx: Context, R: Reporter):
             for s in sites:
                 if all(m.dst_index is not None for m in s.moves):
                     site_nodes |= {m.node.id for m in s.moves}
-            true_succ = [x for (x, lab) in cfg.succ[t.id] if lab and lab[0] == "cond" and lab[2] is True]
+            true_succ = [x for (x, lab) in cfg.succ[t.id] if lab and lab[0] == "cond" and lab[2] is nonempty_pol.get(t.id, True)]
             ok = bool(site_nodes) and bool(true_succ)
             path = None
             skip_guard = ""
